@@ -23,6 +23,9 @@ type wrapTimes struct {
 	startWrapMS int
 	startTimeMS int
 	startRelMS  int
+	// startDeficitMS tells how long before availabilityStartTime now-timeShiftBufferDepth is (0 if it is not).
+	// startTimeMS is limited to the start, but an availabilityTimeOffset must be added to the unlimited value.
+	startDeficitMS int
 	nowMS       int
 	nowWraps    int
 	nowWrapMS   int
@@ -34,6 +37,7 @@ func calcWrapTimes(a *asset, cfg *ResponseConfig, nowMS int, tsbd m.Duration) wr
 	wt.startTimeMS = nowMS - int(tsbd)/1_000_000
 	startTimeMS := cfg.StartTimeS * 1000
 	if wt.startTimeMS < startTimeMS {
+		wt.startDeficitMS = startTimeMS - wt.startTimeMS
 		wt.startTimeMS = startTimeMS
 	}
 	wt.startWraps = (wt.startTimeMS - startTimeMS) / a.LoopDurMS
@@ -757,7 +761,9 @@ func calcPublishTime(cfg *ResponseConfig, se segEntries, wt wrapTimes) float64 {
 		// The timeline changes when a new segment is added at the live edge,
 		// but also when the oldest segment leaves the timeShiftBuffer.
 		publishTime := lastSegAvailTimeS(cfg, se.lsi)
-		windowFull := wt.startTimeMS > cfg.StartTimeS*1000 // Otherwise nothing has left the buffer yet
+		// Nothing has left the buffer before the start of the window, moved by the availabilityTimeOffset, has passed the start
+		atoMS := int(math.Round(cfg.AvailabilityTimeOffsetS * 1000))
+		windowFull := wt.startTimeMS-wt.startDeficitMS+atoMS > cfg.StartTimeS*1000
 		if windowFull && se.startNr > 0 && len(se.entries) > 0 && se.entries[0].T != nil && cfg.TimeShiftBufferDepthS != nil {
 			first := se.entries[0]
 			firstEndS := float64(*first.T+first.D) / float64(se.mediaTimescale)
